@@ -75,7 +75,7 @@ func (fr *Frame) callFn(st *State, site ssa.Instruction, fn *ssa.Function, args 
 		return r
 	}
 	if c := v.lookupContract(fn); c != nil && c.Options["inline"] == "" && !(fr.top && fr.fn == fn) {
-		if v.layerKeyOf(fn.Pkg, c) == v.curLayerKey {
+		if v.layerKeyOf(fn.Pkg, c) == v.curLayerKey && len(c.Lets) == 0 {
 			res = fr.applyContract(st, site, c, fn, args)
 			if fr.top {
 				fr.anchor(st, "call", fn.Name(), -1)
